@@ -3,7 +3,6 @@ package props
 // C19 (B): concurrent transactions sharing ONE serial writer or ONE concurrent writer (race build).
 
 import (
-	"encoding/json"
 	"fmt"
 	"math/rand/v2"
 	"os"
@@ -364,20 +363,7 @@ func c19JudgeIndex(w *fw.W, vcase any, indexFile string, byID map[string]*c19Con
 }
 
 func c19Finish(d *fw.D) {
-	// exactly-once across the whole run is decided per round inside the workers (each round owns its files);
-	// here only the enumerated tables are checked for completeness.
-	cells := map[string]int{}
-	for _, r := range d.Records {
-		if r.Key == "cells" {
-			var v struct {
-				Part string `json:"part"`
-				N    int    `json:"n"`
-			}
-			if json.Unmarshal(r.Value, &v) == nil {
-				cells[v.Part] += v.N
-			}
-		}
-	}
+	// exactly-once is decided per round inside the workers (each round owns its files); the driver only
+	// reports the size of the enumerated tables so that table_cells can be compared with it.
 	d.Count("table_cells_planned", c19Product(c19DecisionDims())+c19Product(c19ContentDims())+c19Product(c19PartsDims()))
-	_ = cells
 }
